@@ -62,6 +62,11 @@ def run(run):
     run.gen_replay('Gen_Model', 'Gen_Model_states.cfg', A, {'langs': langs},
                    env={'VERIF_LANG': 'LTiny', 'VERIF_DEPTH': 3 if quick else 4, 'VERIF_MAXREJ': 0}, timeout=1500,
                    name='every distinct ModelSM state reachable by <= 3-4 accepted calls on LTiny')
+    for lang in ('LSame', 'LDup'):
+        run.gen_replay('Gen_Graph', 'Gen_Graph.cfg', A, {'langs': langs}, env={'VERIF_LANG': lang, 'VERIF_DEPTH': 8, 'VERIF_MAXASSETS': 4,
+                                                                                 'VERIF_MAXASSOCS': 4}, simulate=10 ** 9, depth=9,
+                       max_cases=4000 if quick else 60000, workers=8, timeout=300 if quick else 1800,
+                       name='random model constructions of depth 8 on %s (every prefix is a case)' % lang)
     n = 1500 if quick else 25000
     for lang in ('LDup', 'LDef', 'LSame'):
         run.gen_replay('Gen_Model', 'Gen_Model_sim.cfg', A, {'langs': langs},
